@@ -27,7 +27,11 @@ func main() {
 		repoDir = d
 	}
 	var err error
-	scratchDir, err = os.MkdirTemp("/var/tmp", "govc-")
+	scratchBase := "/var/tmp"
+	if d := os.Getenv("GOVC_SCRATCH"); d != "" {
+		scratchBase = d // a private place for the scratch directory
+	}
+	scratchDir, err = os.MkdirTemp(scratchBase, "govc-")
 	if err != nil {
 		fmt.Println(err)
 		os.Exit(2)
@@ -44,6 +48,29 @@ func main() {
 			code = cmdDebug(os.Args[2:])
 		case "check":
 			code = cmdCheck(os.Args[2:])
+		case "pwitness":
+			// pwitness <grammar>: cross-check the reference interpreter against the real generated parser (debug aid)
+			code = cmdParserWitness(os.Args[2:])
+		case "replay":
+			// replay <replay.json>: re-run the failing input of a replay file on the parser generated from the current tree
+			code = cmdReplay(os.Args[2:])
+		case "schemas":
+			// schemas <dir> [tier]: write the schema grammars of the tier into dir (development aid)
+			tier := "quick"
+			if len(os.Args) > 3 {
+				tier = os.Args[3]
+			}
+			if len(os.Args) < 3 {
+				fmt.Println("usage: govc schemas <dir> [quick|thorough]")
+				code = 2
+			} else if files, err := writeSchemas(os.Args[2], tier, 0); err != nil {
+				fmt.Println(err)
+				code = 2
+			} else {
+				for _, f := range files {
+					fmt.Println(f.Path)
+				}
+			}
 		case "replay-unit":
 			code = cmdReplayUnit(os.Args[2:])
 		case "witness":
